@@ -113,7 +113,8 @@ def gen_form(g, allow_E=True, stream=False, errors=True):
         if kind == "name":
             return {"src": g.name("undefined-name-"), "val": ["none"], "err": "NameError"}
         if kind == "compile":
-            return {"src": rng.choice(["(setv x)", "(if)", "(defn)", "(fn)", "(get)"]), "val": ["none"], "err": "compile"}
+            return {"src": rng.choice(["(setv x)", "(if)", "(defn)", "(fn)", "(get)", "(defn nlh [] (nonlocal hy) 1)",
+                                       "(fn [] (nonlocal no-such-binding))"]), "val": ["none"], "err": "compile"}
         if kind == "reader_close":
             return {"src": ")", "val": ["none"], "err": "reader"}
         return {"src": "(foo [1 2", "val": ["none"], "err": "reader"}
@@ -157,6 +158,8 @@ def gen_form(g, allow_E=True, stream=False, errors=True):
             {"src": f"(do (E {t1}) (do))", "val": ["none"]},
             {"src": f"(do {a} (pragma :warn-on-core-shadow True))", "val": ["none"]},
             {"src": f"(cond False (E {t1}))", "val": ["none"]},
+            {"src": f"(setx sx{a} (if True (do (setv q{a} 1) (E {t1})) 2))", "val": ["int", t1]},
+            {"src": f"(setx sy{a} (try (E {t1}) (except [ValueError] 2)))", "val": ["int", t1]},
             {"src": f"(when False (E {t1}))", "val": ["none"]},
         ])
     if r < 0.9:
@@ -207,6 +210,15 @@ def generate(rng, tier):
                 call["internal"] = {"mode": "frac", "f": rng.random()}
             call["internal"]["exc"] = rng.choice(["fault", "fault", "kbd", "base", "memory"])
         calls.append(call)
+    if not internal_run and rng.random() < 0.08:
+        pos = rng.randrange(len(calls) + 1)
+        sh = rng.choice(["g", "gl", "l"])
+        dd = [rng.randrange(ndicts), rng.randrange(ndicts)]
+        calls[pos:pos] = [
+            {"shape": sh, "d": dd, "mode": "raw", "raw": "bad", "plan": {},
+             "forms": [{"src": "<python list with an unrepresentable leaf>", "val": ["none"], "err": "HyWrapperError"}]},
+            {"shape": sh, "d": dd, "mode": "raw", "raw": "healed", "plan": {},
+             "forms": [{"src": "<the same list, healed>", "val": ["list", [1, [2, 3]]]}]}]
     d = {"dicts": dicts, "calls": calls}
     if internal_run:
         d["isolate"] = True
@@ -230,8 +242,17 @@ def _expected_value(val):
     raise ValueError(k)
 
 
+_RAW = {}
+
+
 def _model_for(call):
     hy = _S["hy"]
+    if call["mode"] == "raw":
+        # not a model but a plain Python value (hy.eval promotes it): the SAME list in both calls, first with an
+        # unrepresentable leaf, then healed
+        L = _RAW.setdefault("L", [1, [2, None]])
+        L[1][1] = object() if call["raw"] == "bad" else 3
+        return L
     srcs = [f["src"] for f in call["forms"]]
     if call["mode"] == "single":
         return hy.read(srcs[0])
@@ -254,6 +275,7 @@ def execute(desc):
     from sim import kernel
     hy = _S["hy"]
     errs = _S["errors"]
+    _RAW.clear()
     eff = Effects()
     _S["modn"] += 1
     mod = types.ModuleType("c39mod")
@@ -418,7 +440,8 @@ def execute(desc):
             phase, klass = "error_form", kind
             if kind == "compile":
                 faults["error_form_compile"] += 1
-                ok = got[0] == "exc" and isinstance(got[1], errs.HyLanguageError)
+                # (scoping errors such as "no binding for nonlocal" are plain SyntaxErrors)
+                ok = got[0] == "exc" and isinstance(got[1], (errs.HyLanguageError, SyntaxError))
             elif kind == "reader":
                 faults["error_form_reader"] += 1
                 ok = got[0] == "exc" and isinstance(got[1], (_S["Lex"], _S["PEOI"]))
